@@ -88,6 +88,13 @@ P.update({
           'explicit TLA+ decision table evaluated by TLC on recorded executions of the real listeners (oracle evaluation)'),
 })
 
+P.update({
+  'C15': (True, 'Hop.tla, Wire_Trace.tla',
+          'TLC checks Hop.tla - batches of at most MaxPerMsg ids leave the queue as frames (one pickle frame per batch / one line per datapoint) and the listener loop of Wire.tla consumes them under every segmentation - for InOrderExactlyOnce, Complete, BatchSize and Conserved over all batch sizes; a real CarbonPickleClientFactory / CarbonLineClientFactory transmits queues of extreme datapoints with MAX_DATAPOINTS_PER_MESSAGE 1..16, an independent decoder recovers the batch structure of the bytes, the bytes are fed under segmentations to the real listener, and Wire_Trace.tla judges order, exactly-once and batching with the per-datapoint value relation supplied by the harness.',
+          'value relation (pickle bit-identical; line: |dv| <= 5e-11 or 1 ulp, floor of the timestamp) is evaluated in exact Fraction arithmetic outside TLC; protobuf not importable',
+          TECH),
+})
+
 PENDING_REASON = 'check not built yet in this round (planned per DESIGN.md section 5); not claimed until its TLA+ model and conformance harness exist'
 
 
